@@ -401,6 +401,78 @@ pub fn run_c15(cfg: &Config) -> i32 {
 	});
 	total.merge(rep);
 
+	// objects with several duplicates of a key after every sequence of up to 3 removals by position:
+	// compared with a permuted fresh copy of what is left (equal) and with copies in which one entry
+	// moved to another key (different unless the normal forms coincide)
+	if !cfg!(miri) {
+		let layouts: Vec<Vec<(&str, &str)>> = vec![
+			vec![("a", "1"), ("a", "2"), ("a", "3"), ("a", "4"), ("b", "9")],
+			vec![("b", "9"), ("a", "1"), ("a", "2"), ("a", "3"), ("a", "4"), ("a", "5")],
+			vec![("a", "1"), ("b", "1"), ("a", "2"), ("b", "2"), ("a", "3"), ("b", "3"), ("a", "4")],
+			vec![("a", "1"), ("a", "1"), ("a", "2"), ("a", "2"), ("c", "1"), ("a", "3")],
+		];
+		let layouts = std::sync::Arc::new(layouts);
+		let rep = parallel(cfg.threads, layouts.len(), |li| {
+			let mut rep = Report::new();
+			let base = &layouts[li];
+			let n = base.len();
+			let mut seqs: Vec<Vec<usize>> = vec![vec![]];
+			let mut layer: Vec<Vec<usize>> = vec![vec![]];
+			for depth in 0..(if cfg.san { 2 } else { 3 }) {
+				let mut next = Vec::new();
+				for sq in &layer {
+					for p in 0..(n - depth) {
+						let mut x = sq.clone();
+						x.push(p);
+						next.push(x);
+					}
+				}
+				seqs.extend(next.iter().cloned());
+				layer = next;
+			}
+			for sq in seqs {
+				let mut o = json_syntax::Object::new();
+				let mut model: Vec<(String, RVal)> = Vec::new();
+				for (k, v) in base.iter() {
+					o.push((*k).into(), Value::Number(v.parse::<u32>().unwrap().into()));
+					model.push((k.to_string(), RVal::Num(v.to_string())));
+				}
+				for &p in &sq {
+					o.remove_at(p);
+					model.remove(p);
+				}
+				let ra = RVal::Obj(model.clone());
+				let a = Value::Object(o);
+				// (i) a fresh copy with the entries reversed
+				let mut rev = model.clone();
+				rev.reverse();
+				let rb = RVal::Obj(rev);
+				let b = from_rval(&rb);
+				rep.distinct_by_construction(1);
+				c15_pair(&mut rep, "duplicates-after-removals-by-position", &ra, &rb, &a, &b, true, true);
+				c15_pair(&mut rep, "duplicates-after-removals-by-position", &rb, &ra, &b, &a, true, true);
+				// (ii) one entry moved to another key
+				for j in 0..model.len() {
+					for other in ["a", "b", "c"] {
+						if model[j].0 == other {
+							continue;
+						}
+						let mut alt = model.clone();
+						alt[j].0 = other.to_string();
+						alt.rotate_left(1);
+						let rc = RVal::Obj(alt);
+						let c = from_rval_push(&rc);
+						let want = nf(&ra) == nf(&rc);
+						c15_pair(&mut rep, "duplicates-after-removals-by-position", &ra, &rc, &a, &c, want, true);
+						c15_pair(&mut rep, "duplicates-after-removals-by-position", &rc, &ra, &c, &a, want, true);
+					}
+				}
+			}
+			rep
+		});
+		total.merge(rep);
+	}
+
 	// operands that went through object operations (sort applied 0-3 times at every level, rebuilds,
 	// removals and re-insertions) against freshly built permutations of the same content
 	let n = cfg.budget(200_000, 4_000_000);
@@ -475,7 +547,7 @@ pub fn run_c15(cfg: &Config) -> i32 {
 		cfg,
 		EvidenceMeta {
 			id: "C15",
-			rule: "a case is an ordered pair of values; expected verdict = equality of recursively sorted normal forms; exhaustive: every ordered pair of the objects with at most 3 entries over keys {k,l} and 8 values (scalars, objects with duplicate keys in both orders, arrays of different lengths, objects nested under arrays in both member orders); thorough adds sampled pairs of objects with at most 4 entries over 12 values; random: generated values against deep shuffles of themselves and against single mutations (leaf, key, multiplicity, array length/order), shuffled or not; objects with 2..130 entries under one key whose values are nested objects in permuted member order; operands that first went through object operations (sort / canonicalize 0-3 times at every level, remove + re-push, clone) against fresh permutations and against permutations with a history of their own; wide objects (5..257 entries) where one side repeats a key; the impls for locspan::Meta and Vec<Meta>; checked through UnorderedPartialEq::unordered_eq in both argument orders, Unordered(a)==Unordered(b), as_unordered(), on Value and on Object; distinct by construction / hash",
+			rule: "a case is an ordered pair of values; expected verdict = equality of recursively sorted normal forms; exhaustive: every ordered pair of the objects with at most 3 entries over keys {k,l} and 8 values (scalars, objects with duplicate keys in both orders, arrays of different lengths, objects nested under arrays in both member orders); thorough adds sampled pairs of objects with at most 4 entries over 12 values; random: generated values against deep shuffles of themselves and against single mutations (leaf, key, multiplicity, array length/order), shuffled or not; objects with 2..130 entries under one key whose values are nested objects in permuted member order; operands that first went through object operations (sort / canonicalize 0-3 times at every level, remove + re-push, clone) against fresh permutations and against permutations with a history of their own; wide objects (5..257 entries) where one side repeats a key; objects with 4-5 duplicates of a key after every sequence of up to 3 removals by position, against reversed fresh copies and against copies with one entry moved to another key; the impls for locspan::Meta and Vec<Meta>; checked through UnorderedPartialEq::unordered_eq in both argument orders, Unordered(a)==Unordered(b), as_unordered(), on Value and on Object; distinct by construction / hash",
 			exhaustive: false,
 			assumptions: vec!["normal form: object entries sorted by (key, normal form of value), arrays in order, scalars by spelling".into()],
 			extra: json!({}),
